@@ -278,7 +278,7 @@ def check(chk: Check) -> None:
     chk.rule("C05.FIXPOINT.mirror", "closed reachable set of joint writer/reader states: every emitted entry id + reference resolves on the reader to the writer's key", floor=12)
     chk.rule("C05.TABLE.range", "every emitted id lies in [0, size]; the writer never holds more than size entries", floor=9)
     chk.rule("C05.TABLE.disabled", "size 0: prefix reference is 0 and decodes to ''; insert refuses", floor=2)
-    chk.rule("C05.PATH.lru", "a hit refreshes the key; eviction never removes the most recently used entry", floor=2)
+    chk.rule("C05.PATH.lru", "a hit refreshes the key; eviction never removes the most recently used entry (prefix, name and datatype tables, driven through TermEncoder.encode_iri / encode_literal)", floor=5)
     chk.exhaustive = True
     sizes = (1, 2, 3, 4, 5) if chk.tier == "quick" else (1, 2, 3, 4, 5, 6)
     chk.trusted += ["OrderedDict / deque models (jstat.models.TRUSTED_FACTS)", "key-renaming symmetry: keys are only compared for equality and emptiness (property text: alphabets of size+2 suffice)"]
@@ -369,3 +369,44 @@ def _lru(chk: Check) -> None:
             chk.ok("C05.PATH.lru", label, {"history": history, "probe": probe, "prefix_entry_resent": False})
         else:
             chk.fail("C05.PATH.lru", label, "pyjelly.serialize.lookup.Lookup.insert:eviction-policy", f"prefix table of size 2: {why}; an entry referenced by the statement being encoded can be evicted by a later term of the same statement")
+    # the same two histories on the datatype table, through TermEncoder.encode_literal (its own call sequence into the
+    # LookupEncoder decides whether a hit refreshes the entry), and on the name table through encode_iri
+    def dt_rows(rows) -> int:
+        return sum(1 for r in (rows if isinstance(rows, (list, tuple)) else getattr(rows, "items", [])) if "datatype" in r.present)
+
+    def name_rows(rows) -> int:
+        return sum(1 for r in (rows if isinstance(rows, (list, tuple)) else getattr(rows, "items", [])) if "name" in r.present)
+
+    for label, history, probe, why in (
+        ("datatype: victim is not the entry just inserted", ["A", "B", "C"], "B", "A, B, C(miss on a full table) evicts B, the most recently used datatype"),
+        ("datatype: a hit protects the entry", ["A", "B", "A", "C"], "A", "A, B, A(hit), C(miss) evicts A although it was used after B"),
+    ):
+        it = Interp(chk.program, generic_strings=True)
+        k = K.Kit(it)
+        enc = k.new(K.EN, "TermEncoder", lookup_preset=k.preset(8, 2, 2))
+        w = K.Wire(it)
+        for i, dt in enumerate(history):
+            k.method(enc, "encode_literal", lex=sstr(Atom(f"lex{i}")), datatype=sstr(Atom(dt + ".dt", nonempty=True)), literal=w.msg("RdfLiteral"))
+        rows = k.method(enc, "encode_literal", lex=sstr(Atom("lexq")), datatype=sstr(Atom(probe + ".dt", nonempty=True)), literal=w.msg("RdfLiteral"))
+        if len(it.decisions):
+            raise AnalysisError("C05.PATH.lru: undecided branch in encode_literal over distinct symbolic strings")
+        if dt_rows(rows) == 0:
+            chk.ok("C05.PATH.lru", label, {"history": history, "probe": probe, "datatype_entry_resent": False})
+        else:
+            chk.fail("C05.PATH.lru", label, "pyjelly.serialize.encode.TermEncoder.encode_literal:eviction-policy", f"datatype table of size 2: {why}; a datatype referenced by the statement being encoded can be evicted by a later literal of the same statement")
+    for label, history, probe, why in (
+        ("name: a hit protects the entry", ["n1", "n2", "n3", "n4", "n5", "n6", "n7", "n8", "n1", "n9"], "n1", "n1..n8, n1(hit), n9(miss) evicts n1 although it was used after n2"),
+    ):
+        it = Interp(chk.program, generic_strings=True)
+        k = K.Kit(it)
+        enc = k.new(K.EN, "TermEncoder", lookup_preset=k.preset(8, 2, 2))
+        w = K.Wire(it)
+        for local in history:
+            k.method(enc, "encode_iri", iri("N", local), w.msg("RdfIri"))
+        rows = k.method(enc, "encode_iri", iri("N", probe), w.msg("RdfIri"))
+        if len(it.decisions):
+            raise AnalysisError("C05.PATH.lru: undecided branch in encode_iri over distinct symbolic strings")
+        if name_rows(rows) == 0:
+            chk.ok("C05.PATH.lru", label, {"history": history, "probe": probe, "name_entry_resent": False})
+        else:
+            chk.fail("C05.PATH.lru", label, "pyjelly.serialize.encode.TermEncoder.encode_iri:eviction-policy", f"name table of size 8: {why}")
